@@ -22,6 +22,7 @@ from dataclasses import asdict
 from pathlib import Path
 
 VERIF = Path(__file__).resolve().parent.parent
+OUT = Path(os.environ.get("PYVC_OUT", str(VERIF)))  # evidence/replays go here (default: /verif)
 sys.path.insert(0, str(VERIF))
 
 NATIVE_PY = "/venv/bin/python"
@@ -194,7 +195,7 @@ def main(argv=None):
 
     # ---- violations: refuted obligations (+ bounded failures), replayed on the real code
     lines = []
-    rdir = VERIF / "replays" / pid
+    rdir = OUT / "replays" / pid
     violations = 0
     known_matched = []
     replayed = 0
@@ -331,8 +332,8 @@ def main(argv=None):
         wall_s=round(time.time() - t0, 2),
         violations=violations,
     )
-    (VERIF / "evidence").mkdir(exist_ok=True)
-    (VERIF / "evidence" / f"{pid}.json").write_text(json.dumps(ev, indent=1, default=str))
+    (OUT / "evidence").mkdir(parents=True, exist_ok=True)
+    (OUT / "evidence" / f"{pid}.json").write_text(json.dumps(ev, indent=1, default=str))
 
     print(f"[{pid}] tier={tier} functions={len(fuc)} paths={paths} obligations={n_obl} discharged={n_dis} refuted={len(refuted)} undecided={len(undecided)} bounded_cases={sum(r.get('cases', 0) for r in native_reports)} wall={time.time() - t0:.1f}s level={level}")
     for u in undecided[:10]:
